@@ -25,17 +25,4 @@ CONSTANTS
   WApp = 15
   WStore = 10
 INVARIANT EmitAtDepth
-INVARIANT Agreement
-INVARIANT EpochIsChainLength
-INVARIANT TreesValid
-INVARIANT PrivMatchesPub
-INVARIANT RecipientsEntitled
-INVARIANT NoDecapFailure
-INVARIANT PendingOnCurrentEpoch
-INVARIANT SendImpliesRecv
-INVARIANT CommittedListsLegal
-INVARIANT ProvidersAgree
-INVARIANT RetentionExact
-INVARIANT NoGenerationReuse
-INVARIANT AtMostOnce
 CHECK_DEADLOCK FALSE
